@@ -32,8 +32,79 @@ class FuncInfo:
     def ast_hash(self):
         return hashlib.sha256(ast.dump(self.node, include_attributes=False).encode()).hexdigest()[:16]
 
+    def local_names(self):
+        """Parameters, then the other local names in the order of their first binding in the source (nested functions, lambdas
+        and comprehensions have their own scopes and are skipped). Used to follow pure renamings of locals (rename_map)."""
+        names = []
+
+        def add(n):
+            if n not in names:
+                names.append(n)
+
+        a = self.node.args
+        for q in a.posonlyargs + a.args + ([a.vararg] if a.vararg else []) + a.kwonlyargs + ([a.kwarg] if a.kwarg else []):
+            add(q.arg)
+
+        def visit(n):
+            if isinstance(n, (ast.FunctionDef, ast.AsyncFunctionDef, ast.Lambda, ast.ListComp, ast.SetComp, ast.DictComp, ast.GeneratorExp, ast.ClassDef)):
+                if isinstance(n, (ast.FunctionDef, ast.AsyncFunctionDef, ast.ClassDef)):
+                    add(n.name)
+                return
+            if isinstance(n, ast.Name) and isinstance(n.ctx, ast.Store):
+                add(n.id)
+            if isinstance(n, ast.ExceptHandler) and n.name:
+                add(n.name)
+            if isinstance(n, (ast.Assign, ast.AugAssign, ast.AnnAssign)):
+                # value first (it is evaluated first), then the targets - source order of BINDING is what matters here
+                for t in (n.targets if isinstance(n, ast.Assign) else [n.target]):
+                    visit(t)
+                if n.value is not None:
+                    visit(n.value)
+                return
+            for ch in ast.iter_child_nodes(n):
+                visit(ch)
+
+        for st in self.node.body:
+            visit(st)
+        return names
+
     def __repr__(self):
         return f"<func {self.dotted}>"
+
+
+_LOCALS_BASELINE = None
+
+
+def locals_baseline():
+    """contracts/locals_baseline.json: the local names of every function of the reference tree the contracts were written against"""
+    global _LOCALS_BASELINE
+    if _LOCALS_BASELINE is None:
+        import json
+        import os
+
+        path = os.path.join(os.path.dirname(os.path.dirname(os.path.abspath(__file__))), "contracts", "locals_baseline.json")
+        try:
+            _LOCALS_BASELINE = json.load(open(path))
+        except Exception:
+            _LOCALS_BASELINE = {}
+    return _LOCALS_BASELINE
+
+
+def rename_map(fi):
+    """{name in the reference tree: name in the current tree} when the function's locals differ from the reference only by a
+    renaming (same number of locals, matched by order of first binding). The contracts name locals and parameters of the reference
+    tree; invariants and postconditions are PROVED against the current code, so a wrong guess here can only make a proof fail,
+    never pass."""
+    cached = getattr(fi, "_rename_map", None)
+    if cached is not None:
+        return cached
+    base = locals_baseline().get(fi.dotted)
+    cur = fi.local_names()
+    m = {}
+    if base and len(base) == len(cur):
+        m = {b: c for b, c in zip(base, cur) if b != c}
+    fi._rename_map = m
+    return m
 
 
 class ClassInfo:
